@@ -835,8 +835,62 @@ def _reported(ctx):
         c09._reload(ctx)
 
 
+def _declared_capacity(ctx):
+    """C01.5: the capacity the model works with is the declared one - when a
+    server record is read again, the old server object is kept only if the
+    fresh one is the same (is_same: partition and capacity) under the same
+    parent; every other outcome replaces it (remove_server, then
+    load_server)."""
+    loader = ctx.index.get_class(K.LOADER, 'Loader')
+    func = loader.methods.get('reload_server') if loader else None
+    ctx.require(func is not None, 'Loader.reload_server')
+    graph = ctx.cfg(func)
+    fresh = [n for n in graph.nodes if n.kind == 'stmt' and
+             isinstance(n.ast, ast.Assign) and
+             isinstance(n.ast.value, ast.Call) and
+             K.is_meth(n.ast.value, 'create_server') and
+             isinstance(n.ast.targets[0], ast.Name)]
+    ctx.require(len(fresh) == 1, 'the fresh server object of reload_server',
+                rule='C01.5', func=func)
+    new = fresh[0].ast.targets[0].id
+
+    def same_record(atom):
+        key = atom.key
+        return key[0] == 'truth' and key[2] and \
+            '.is_same(%s)' % new in key[1]
+
+    def same_parent(atom):
+        key = atom.key
+        return key[0] == 'cmp' and key[1] == '==' and len(key[2]) == 2 and \
+            any(t.endswith('.parent') for t, _c in key[2])
+
+    def replaces(node):
+        return any(K.is_meth(c, 'remove_server')
+                   for c in C.node_calls(node))
+    leak = K.unestablished_path(
+        graph, [graph.exit],
+        {'same record': same_record, 'same parent': same_parent},
+        start=fresh[0], cut_node=replaces)
+    ctx.ob('C01.5', func, fresh[0], leak is None,
+           'a server whose record was read again keeps its old object only '
+           'when the fresh one is the same under the same parent; otherwise '
+           'it is replaced',
+           path=K.describe(leak) if leak else None,
+           construct='reload adopts the declared capacity')
+    # ... and is_same compares what a placement depends on
+    server = ctx.index.get_class(K.SCHED, 'Server')
+    same = ctx.index.find_method(server, 'is_same') if server else None
+    ctx.require(same is not None, 'Server.is_same', rule='C01.5')
+    text = N.txt(K.expr_of_function(same.raw) or ast.Constant(value=None))
+    ctx.ob('C01.5', same, None,
+           'init_capacity' in text and 'labels' in text,
+           'is_same compares the partition labels and the declared capacity '
+           '(%s)' % text[:100], construct='is_same covers capacity')
+
+
 def check(ctx):
     _model_exit(ctx)
+    _declared_capacity(ctx)
     nz, server, _node_cls, put, remove, pred = _roles(ctx)
     _admission(ctx, nz, put, pred)
     _pair(ctx, put, remove)
